@@ -548,7 +548,11 @@ func (e *Evaluator) evalFor(f *parser.ForStmt) (value, error) {
 		loopVarName = f.LoopVar.Name
 	}
 	for r.next(e.scope, loopVarName) {
+		// Every iteration gets a scope of its own, as the parser assumes:
+		// a variable declared in the body does not survive into the next iteration.
+		e.pushScope()
 		val, err := e.eval(f.Block)
+		e.popScope()
 		if err != nil {
 			return nil, err
 		}
